@@ -1,6 +1,7 @@
 mod codec;
 mod http;
 mod durrun;
+mod procrun;
 mod sched;
 mod storegen;
 mod storerun;
@@ -29,7 +30,13 @@ fn main() {
         "worker" => {
             let dir = PathBuf::from(&args[2]);
             let clock = arg_val(&args, "--clock").map(|s| s.parse().unwrap());
-            worker::run(dir, clock, args.iter().any(|a| a == "--gate-gc"), args.iter().any(|a| a == "--http"));
+            worker::run(
+                dir,
+                clock,
+                args.iter().any(|a| a == "--gate-gc"),
+                args.iter().any(|a| a == "--http"),
+                args.iter().any(|a| a == "--serve"),
+            );
         }
         "dur-child" => durrun::child(&args),
         "dur-recover" => durrun::recover(&args),
@@ -177,8 +184,68 @@ fn main() {
             }
             println!("{{\"scenarios\": {n}, \"events\": {nev}}}");
         }
+        "proc-run" => {
+            let inp = arg_val(&args, "--in").expect("--in");
+            let out = arg_val(&args, "--out").expect("--out");
+            let jobs: usize = arg_val(&args, "--jobs").map(|s| s.parse().unwrap()).unwrap_or(8);
+            let chunk: usize = arg_val(&args, "--chunk").map(|s| s.parse().unwrap()).unwrap_or(0);
+            let scs: Vec<Value> = std::io::BufReader::new(std::fs::File::open(inp).unwrap())
+                .lines()
+                .map(|l| l.unwrap())
+                .filter(|l| !l.trim().is_empty())
+                .map(|l| serde_json::from_str(&l).unwrap())
+                .collect();
+            let root = scratch_root();
+            std::fs::create_dir_all(&root).unwrap();
+            let n = scs.len();
+            let scs = Arc::new(scs);
+            let next = Arc::new(AtomicUsize::new(0));
+            let results: Arc<Mutex<Vec<Option<Vec<Value>>>>> = Arc::new(Mutex::new(vec![None; n]));
+            let mut hs = vec![];
+            for _ in 0..jobs {
+                let (scs, next, results, root) = (scs.clone(), next.clone(), results.clone(), root.clone());
+                hs.push(std::thread::spawn(move || loop {
+                    let i = next.fetch_add(1, Ordering::SeqCst);
+                    if i >= scs.len() {
+                        break;
+                    }
+                    // a panic of the runner itself is a tool error for that scenario, not a verdict
+                    let r = std::panic::catch_unwind(std::panic::AssertUnwindSafe(|| procrun::run_scenario(&root, &scs[i])));
+                    let evs = r.unwrap_or_else(|_| {
+                        vec![
+                            serde_json::json!({"e": "reset", "s": scs[i]["s"]}),
+                            serde_json::json!({"e": "harness_died", "s": scs[i]["s"], "why": "runner panic"}),
+                        ]
+                    });
+                    results.lock().unwrap()[i] = Some(evs);
+                }));
+            }
+            for h in hs {
+                h.join().unwrap();
+            }
+            let _ = std::fs::remove_dir_all(&root);
+            let results = results.lock().unwrap();
+            let mut nev = 0usize;
+            let mut nfr = 0usize;
+            let mut file: Option<std::io::BufWriter<std::fs::File>> = None;
+            for (i, r) in results.iter().enumerate() {
+                if file.is_none() || (chunk > 0 && i % chunk == 0) {
+                    let name = if chunk > 0 { format!("{out}.{}", i / chunk) } else { out.clone() };
+                    file = Some(std::io::BufWriter::new(std::fs::File::create(name).unwrap()));
+                }
+                for e in r.as_ref().unwrap() {
+                    writeln!(file.as_mut().unwrap(), "{}", e).unwrap();
+                    nev += 1;
+                    if e["e"] == "frame" {
+                        nfr += 1;
+                    }
+                }
+            }
+            println!("{{\"scenarios\": {n}, \"events\": {nev}, \"frames\": {nfr}}}");
+        }
         _ => {
             eprintln!("usage: xsv worker|store-gen|store-replay|sched-one|sched-run|dur-child|dur-recover|dur-killat ...");
+            eprintln!("usage: xsv worker|store-gen|store-replay|sched-one|sched-run|proc-run ...");
             std::process::exit(2);
         }
     }
